@@ -4,6 +4,10 @@ import math as m
 
 import numpy as np
 
+# the iterations below converge quadratically (about ten steps); the cap only guards against
+# inputs for which the convergence criterion can never be met (e.g. modulus 0)
+MAX_ITER = 1000
+
 
 def cel0(kc, p, c, s):
     """
@@ -37,7 +41,9 @@ def cel0(kc, p, c, s):
     g = em
     em = k + em
     kk = k
-    while abs(g - k) > g * errtol:
+    n_iter = 0
+    while abs(g - k) > g * errtol and n_iter < MAX_ITER:
+        n_iter += 1
         k = 2 * np.sqrt(kk)
         kk = k * em
         f = cc
@@ -96,7 +102,9 @@ def celv(kc, p, c, s):
     # define a mask that adjusts with every evaluation step so that only
     # non-converged entries are further iterated.
     mask = np.ones(n, dtype=bool)
-    while np.any(mask):
+    n_iter = 0
+    while np.any(mask) and n_iter < MAX_ITER:
+        n_iter += 1
         k[mask] = 2 * np.sqrt(kk[mask])
         kk[mask] = k[mask] * em[mask]
         f[mask] = cc[mask]
@@ -156,7 +164,9 @@ def cel_iter0(qc, p, g, cc, ss, em, kk):
     """
     Iterative part of Bulirsch cel algorithm
     """
-    while m.fabs(g - qc) >= qc * 1e-8:
+    n_iter = 0
+    while m.fabs(g - qc) >= qc * 1e-8 and n_iter < MAX_ITER:
+        n_iter += 1
         qc = 2 * m.sqrt(kk)
         kk = qc * em
         f = cc
@@ -173,7 +183,9 @@ def cel_iterv(qc, p, g, cc, ss, em, kk):
     """
     Iterative part of Bulirsch cel algorithm
     """
-    while np.any(np.fabs(g - qc) >= qc * 1e-8):
+    n_iter = 0
+    while np.any(np.fabs(g - qc) >= qc * 1e-8) and n_iter < MAX_ITER:
+        n_iter += 1
         qc = 2 * np.sqrt(kk)
         kk = qc * em
         f = cc
